@@ -2,7 +2,8 @@
 # pylint: disable=broad-except
 # pylint: disable=too-many-lines
 from __future__ import absolute_import
-from collections import namedtuple, Counter
+from collections import namedtuple, Counter, OrderedDict
+import json
 import logging
 from random import Random
 from datetime import datetime
@@ -965,9 +966,42 @@ class TapeRecorder(object):
                 elif captured_arg.position is not None:
                     args_for_keys.append(args[captured_arg.position])
 
-        args_key = encode(args_for_keys, unpicklable=True)
-        kwargs_key = encode(sorted(list(kwargs_for_key.items()), key=lambda k_v: k_v[0]), unpicklable=True)
+        args_key = TapeRecorder._encode_for_key(args_for_keys)
+        kwargs_key = TapeRecorder._encode_for_key(sorted(list(kwargs_for_key.items()), key=lambda k_v: k_v[0]))
         return u'input: {} args={}, kwargs={}'.format(alias, args_key, kwargs_key)
+
+    @staticmethod
+    def _encode_for_key(value):
+        """
+        Serializes invocation arguments to be used as part of an interception key
+        :param value: Arguments to serialize
+        :type value: Any
+        :return: Serialized form that depends only on the values of the arguments
+        :rtype: basestring
+        """
+        encoded = encode(value, unpicklable=True)
+        # Sets are serialized in their iteration order which depends on the hash seed of the process and on the
+        # insertion history of the set, hence equal sets could end up with different keys (e.g. in the recording
+        # process vs the playback process), we sort the serialized items of every set to make the key stable
+        if '"py/set"' not in encoded:
+            return encoded
+        return json.dumps(TapeRecorder._sort_serialized_sets(json.loads(encoded, object_pairs_hook=OrderedDict)))
+
+    @staticmethod
+    def _sort_serialized_sets(node):
+        """
+        :param node: Serialized (flatten) form of a value
+        :type node: Any
+        :return: Same serialized form where the items of every serialized set are sorted
+        :rtype: Any
+        """
+        if isinstance(node, list):
+            return [TapeRecorder._sort_serialized_sets(item) for item in node]
+        if isinstance(node, dict):
+            node = OrderedDict((k, TapeRecorder._sort_serialized_sets(v)) for k, v in node.items())
+            if isinstance(node.get('py/set'), list):
+                node['py/set'] = sorted(node['py/set'], key=lambda item: json.dumps(item, sort_keys=True))
+        return node
 
     @staticmethod
     def _output_interception_key(alias, invocation_number):
